@@ -5,6 +5,10 @@ ROOT = os.path.dirname(os.path.dirname(os.path.abspath(__file__)))
 
 # id -> (level, technique, level text, level note, design ref)
 CLAIMED = {
+ "C03": ("exploration", "runtime monitoring: pairwise stream equality of 8 ingestion entry points against an independent Dremel shredding model, over PRNG rows with bitmap-boundary null runs",
+         "Held on every explored (type, rows, batch) case: GenericWriter[T], GenericWriter[any], Writer.Write(any), GenericBuffer[T], Buffer, RowBuffer[T], WriteRows(Deconstruct) and per-column writers all store exactly the (value,r,d) streams of the reference Dremel model, and Reconstruct(Deconstruct(v)) == v. Sampling of an unbounded type/value space: exploration.",
+         "Trusted: the library's Node API as schema report; the read side (Rows().ReadRows) used to observe what was stored (C02 checks the bytes independently). Maps hold <=1 entry here.",
+         "DESIGN.md §4 C03"),
  "C01": ("exploration", "runtime monitoring: value-level and (value,r,d)-level reference-model oracle over PRNG-generated (type, rows, options, call history) cases on the real writer/readers",
          "Held on every explored case: rows read back through Read[T], GenericReader.Read (PRNG batches, sync/async, with/without page index), Reader.Read and RowGroup.Rows are bit-identical to the rows written (documented nil/empty and zero-optional equivalences only) and the file's column streams equal the Dremel model's. The input space is a product of unbounded factors, so this is sampling with boundary-value pools: exploration.",
          "Trusted: the library's Node API as the schema report, the Go reflect package. Symmetric writer/reader bugs are the business of C02's independent decoder.",
